@@ -45,7 +45,7 @@ import GoblVerif.Proofs.CalcErrorMore
 import GoblVerif.Proofs.NumX
 
 namespace GoblVerif.Props.C01
-open GoblVerif GoblVerif.Calc GoblVerif.Spec GoblVerif.Spec.C01
+open GoblVerif GoblVerif.Calc GoblVerif.Calc.Err GoblVerif.Spec GoblVerif.Spec.C01
 
 /-! ## the rounding points -/
 
